@@ -56,6 +56,20 @@ def rotation_cases(tb, rnd, tier):
                 add(role, marker, [n, rnd.choice(other_enc)], [rnd.choice(etm)], 'unknown-shape')
             for n in unk['mac']:
                 add(role, marker, [rnd.choice(cbc)], [n], 'unknown-shape')
+            # the client-to-server lists differ from the server-to-client lists (server role: the report is about the latter)
+            if role == 'server':
+                cid[0] += 1
+                c = rating.mk_case(cid[0], role=role, kex=['curve25519-sha256'] + ([rating_marker(role)] if marker == 'own' else []), key=['ssh-ed25519'],
+                                   enc=[rnd.choice(cbc), rnd.choice(other_enc)], mac=[rnd.choice(etm)], enc_c2s=[rnd.choice(other_enc)], mac_c2s=[rnd.choice(other_mac)],
+                                   sw={'product': 'OpenSSH', 'c': [9, 6], 'p': ['none', 0]})
+                c['tag'] = 'asymmetric-directions'
+                cases.append(c)
+                cid[0] += 1
+                c = rating.mk_case(cid[0], role=role, kex=['curve25519-sha256'] + ([rating_marker(role)] if marker == 'own' else []), key=['ssh-ed25519'],
+                                   enc=[rnd.choice(other_enc)], mac=[rnd.choice(other_mac)], enc_c2s=cha + [rnd.choice(cbc)], mac_c2s=[rnd.choice(etm)],
+                                   sw={'product': 'OpenSSH', 'c': [9, 6], 'p': ['none', 0]})
+                c['tag'] = 'asymmetric-directions'
+                cases.append(c)
             # several at once, duplicates
             add(role, marker, cha + cbc[:3] + [cbc[0]], etm[:2] + [etm[0]], 'many+dups')
     return cases
